@@ -30,6 +30,7 @@ Qed.
 (* induction over histories (blocks nest lists of ops) *)
 Fixpoint op_ind' (Q : op -> Prop)
   (HC : forall m pos kw pr, Q (OCall m pos kw pr))
+  (HF : forall m pos kw, Q (OCallRefused m pos kw))
   (HW : forall kw blk, Forall Q blk -> Q (OWith kw blk))
   (HA : forall pos kw blk intr, Forall Q blk -> Q (OApp pos kw blk intr))
   (HB : forall kw blk, Forall Q blk -> Q (OWithCb kw blk))
@@ -40,10 +41,11 @@ Fixpoint op_ind' (Q : op -> Prop)
   let all := fix all (l : list op) : Forall Q l :=
     match l with
     | [] => Forall_nil Q
-    | x :: t => Forall_cons x (op_ind' Q HC HW HA HB HU HR HT x) (all t)
+    | x :: t => Forall_cons x (op_ind' Q HC HF HW HA HB HU HR HT x) (all t)
     end in
   match o with
   | OCall m pos kw pr => HC m pos kw pr
+  | OCallRefused m pos kw => HF m pos kw
   | OWith kw blk => HW kw blk (all blk)
   | OApp pos kw blk intr => HA pos kw blk intr (all blk)
   | OWithCb kw blk => HB kw blk (all blk)
@@ -114,6 +116,7 @@ Proof. reflexivity. Qed.
 Lemma run_op_frame : forall c cls o s, same_below s (st (run_op c cls o s)).
 Proof.
   intros c cls o. induction o using op_ind'; intros s.
+  - simpl. apply same_below_refl.
   - simpl. apply same_below_refl.
   - rewrite run_op_with.
     pose proof (run_list_st (run_op c cls) same_below same_below_refl same_below_trans blk H
@@ -186,6 +189,7 @@ Qed.
 Lemma run_op_no_update : forall c cls o s, updates_here o = false -> st (run_op c cls o s) = s.
 Proof.
   intros c cls o. induction o using op_ind'; intros s Hu.
+  - reflexivity.
   - reflexivity.
   - apply exit_restores_with.
   - apply exit_restores_app.
